@@ -185,14 +185,14 @@ Example C18_example :
   exists on off,
     html (fun b => b) (set_sp true o_ex) ex_tree = Ok on /\
     html (fun b => b) (set_sp false o_ex) ex_tree = Ok off /\
-    on <> off /\ strip_sourcepos on = Some off /\ strip_sp_pat on = off /\
+    on <> off /\ strip_sourcepos on = Some off /\ strip_sp_pat on = off /\ sp_deleted on off = true /\
     exists xon xoff,
       shape_ok ex_tree = true /\
       xml (set_sp true o_ex) ex_tree = Ok xon /\ xml (set_sp false o_ex) ex_tree = Ok xoff /\
       xon <> xoff /\ strip_xml_sourcepos xon = Some xoff /\ xml_sp_tree_check xon xoff = 0%N.
 Proof.
   eexists. eexists. split; [vm_compute; reflexivity|]. split; [vm_compute; reflexivity|].
-  split; [intro H; discriminate H|]. split; [vm_compute; reflexivity|]. split; [vm_compute; reflexivity|].
+  split; [intro H; discriminate H|]. split; [vm_compute; reflexivity|]. split; [vm_compute; reflexivity|]. split; [vm_compute; reflexivity|].
   eexists. eexists. split; [vm_compute; reflexivity|]. split; [vm_compute; reflexivity|]. split; [vm_compute; reflexivity|].
   split; [intro H; discriminate H|]. split; vm_compute; reflexivity.
 Qed.
